@@ -106,7 +106,7 @@ func c10Ops() []c10Op {
 	}
 
 	for i := 0; i < c10S; i++ {
-		for _, n := range []string{"Zero", "One", "MinusOne", "SetUInt64(3)", "Square", "Invert", "Add(nil)", "Subtract(nil)", "Multiply(nil)", "Set(nil)", "=HashToScalar"} {
+		for _, n := range []string{"Zero", "One", "MinusOne", "SetUInt64(3)", "SetSparse", "Square", "Invert", "Add(nil)", "Subtract(nil)", "Multiply(nil)", "Set(nil)", "=HashToScalar"} {
 			ops = append(ops, c10Op{name: n, i: i, j: i})
 		}
 
@@ -162,6 +162,9 @@ func c10BadElemBuild() [][]byte {
 		bad5, ref.Enc(g)[:32], unc, {1},
 	}
 }
+
+// c10Sparse is a scalar with all-zero 64-bit words between non-zero ones and a short top word: 2^200 + 3.
+var c10Sparse = new(big.Int).Add(new(big.Int).Lsh(big.NewInt(1), 200), big.NewInt(3))
 
 // memoised oracle scalar multiplication
 var c10MulMemo sync.Map
@@ -311,6 +314,9 @@ func c10Apply(st c10State, m c10Model, o c10Op) (ns c10State, nm c10Model, key, 
 		case "SetUInt64(3)":
 			r.SetUInt64(3)
 			nm.s[o.i] = big.NewInt(3)
+		case "SetSparse":
+			err = r.Decode(ref.Bytes32(c10Sparse))
+			nm.s[o.i] = c10Sparse
 		case "Square":
 			r.Square()
 			nm.s[o.i] = ref.Zn.Sqr(m.s[o.i])
